@@ -105,6 +105,7 @@ pub enum KadCmd {
     GetRecord { key: Vec<u8>, quorum: u8 },
     StartProviding { key: Vec<u8>, quorum: u8 },
     GetProviders { key: Vec<u8> },
+    StoreRecord { key: Vec<u8>, value: Vec<u8> },
 }
 
 #[derive(Clone)]
@@ -145,6 +146,9 @@ pub struct NodeSetup {
     pub substream_open_timeout: Option<Duration>,
     /// number of probe user protocols ("/vh/probe/<k>")
     pub probes: usize,
+    /// protocol names overriding "/vh/probe/<k>" (a probe named like the Kademlia protocol makes a peer that accepts
+    /// Kademlia substreams and never answers)
+    pub probe_names: Vec<String>,
     /// unique id of the case: node threads are named "case<id>-node<k>" so that panics can be attributed
     pub case_id: u64,
 }
@@ -283,7 +287,8 @@ impl Node {
         for k in 0..setup.probes {
             let (tx, rx) = mpsc::unbounded_channel::<ProbeCmd>();
             probe_txs.push(tx);
-            probes.push(Probe { name: format!("/vh/probe/{k}"), node: index, probe: k, log: log.clone(), cmd: rx });
+            let name = setup.probe_names.get(k).cloned().unwrap_or_else(|| format!("/vh/probe/{k}"));
+            probes.push(Probe { name, node: index, probe: k, log: log.clone(), cmd: rx });
         }
         rt.spawn(async move {
             node_main(index, setup, log2, cmd_rx, ready_tx, probes).await;
@@ -561,6 +566,7 @@ async fn node_main(
                                 KadCmd::PutRecordToPeers { key, value, peers, quorum } => { let q = h.put_record_to_peers(Record::new(RecordKey::from(key), value), peers, false, quorum_of(quorum)).await; push(&log, index, ObsKind::KadStarted { query: q.0, what: "put_record_to_peers".into() }); }
                                 KadCmd::GetRecord { key, quorum } => { let q = h.get_record(RecordKey::from(key), quorum_of(quorum)).await; push(&log, index, ObsKind::KadStarted { query: q.0, what: "get_record".into() }); }
                                 KadCmd::StartProviding { key, quorum } => { let q = h.start_providing(RecordKey::from(key), quorum_of(quorum)).await; push(&log, index, ObsKind::KadStarted { query: q.0, what: "start_providing".into() }); }
+                                KadCmd::StoreRecord { key, value } => h.store_record(Record::new(RecordKey::from(key), value)).await,
                                 KadCmd::GetProviders { key } => { let q = h.get_providers(RecordKey::from(key)).await; push(&log, index, ObsKind::KadStarted { query: q.0, what: "get_providers".into() }); }
                             }
                         }
@@ -667,18 +673,26 @@ fn tag_of(data: &[u8]) -> String {
     }
 }
 
+pub fn hex(b: &[u8]) -> String {
+    b.iter().map(|x| format!("{x:02x}")).collect()
+}
+
 fn describe_kad(ev: &KademliaEvent) -> (Option<usize>, String, String) {
     match ev {
-        KademliaEvent::FindNodeSuccess { query_id, peers, .. } => (Some(query_id.0), "FindNodeSuccess".into(), format!("{}", peers.len())),
+        KademliaEvent::FindNodeSuccess { query_id, peers, .. } => (Some(query_id.0), "FindNodeSuccess".into(), peers.iter().map(|(p, _)| p.to_string()).collect::<Vec<_>>().join(",")),
         KademliaEvent::RoutingTableUpdate { peers } => (None, "RoutingTableUpdate".into(), format!("{}", peers.len())),
         KademliaEvent::GetRecordSuccess { query_id, .. } => (Some(query_id.0), "GetRecordSuccess".into(), String::new()),
-        KademliaEvent::GetRecordPartialResult { query_id, .. } => (Some(query_id.0), "GetRecordPartialResult".into(), String::new()),
-        KademliaEvent::GetProvidersSuccess { query_id, providers, .. } => (Some(query_id.0), "GetProvidersSuccess".into(), format!("{}", providers.len())),
+        KademliaEvent::GetRecordPartialResult { query_id, record } => {
+            (Some(query_id.0), "GetRecordPartialResult".into(), format!("{}|{}|{}", record.peer, hex(record.record.key.as_ref()), hex(&record.record.value)))
+        }
+        KademliaEvent::GetProvidersSuccess { query_id, providers, .. } => {
+            (Some(query_id.0), "GetProvidersSuccess".into(), providers.iter().map(|p| p.peer.to_string()).collect::<Vec<_>>().join(","))
+        }
         KademliaEvent::PutRecordSuccess { query_id, .. } => (Some(query_id.0), "PutRecordSuccess".into(), String::new()),
         KademliaEvent::AddProviderSuccess { query_id, .. } => (Some(query_id.0), "AddProviderSuccess".into(), String::new()),
         KademliaEvent::QueryFailed { query_id } => (Some(query_id.0), "QueryFailed".into(), String::new()),
-        KademliaEvent::IncomingRecord { record } => (None, "IncomingRecord".into(), format!("{:?}", record.key)),
-        KademliaEvent::IncomingProvider { provided_key, provider } => (None, "IncomingProvider".into(), format!("{:?} {}", provided_key, provider.peer)),
+        KademliaEvent::IncomingRecord { record } => (None, "IncomingRecord".into(), format!("{}|{}", hex(record.key.as_ref()), hex(&record.value))),
+        KademliaEvent::IncomingProvider { provided_key, provider } => (None, "IncomingProvider".into(), format!("{}|{}", hex(provided_key.as_ref()), provider.peer)),
     }
 }
 
